@@ -65,7 +65,15 @@ var decTok = map[string]string{
 	"UvarintStr": "ustr", "UvarintBytes": "ustr",
 }
 
+// CodecOpts restricts what counts as the stream.
+type CodecOpts struct {
+	EncRecv string   // only encoder buffer operations whose receiver expression ends in this text (several buffers in one function)
+	Ignore  []string // buffer methods that do not belong to the compared content (e.g. a trailing PutHash)
+	Opaque  []string // function names not looked into (they write other sections before the buffer is reset)
+}
+
 type codecCtx struct {
+	opts   CodecOpts
 	p      *Prog
 	a      *cAuto
 	side   string // "enc" | "dec"
@@ -125,8 +133,16 @@ func (c *codecCtx) hasBufOps(fs *FuncSrc, seen map[*FuncSrc]bool, depth int) boo
 				tbl = decTok
 			}
 			if _, ok := tbl[s.Sel.Name]; ok {
-				found = true
-				return false
+				skip := c.side == "enc" && c.opts.EncRecv != "" && !strings.HasSuffix(types.ExprString(s.X), c.opts.EncRecv)
+				for _, ig := range c.opts.Ignore {
+					if ig == s.Sel.Name {
+						skip = true
+					}
+				}
+				if !skip {
+					found = true
+					return false
+				}
 			}
 		}
 		if callee := calleeOf(info, call); callee != nil && c.pkgs[callee.Pkg()] {
@@ -396,6 +412,14 @@ func (f *fnCtx) call(call *ast.CallExpr, lits []*ast.FuncLit, in int) int {
 		if f.side == "dec" {
 			tbl = decTok
 		}
+		if f.side == "enc" && f.opts.EncRecv != "" && !strings.HasSuffix(types.ExprString(s.X), f.opts.EncRecv) {
+			return in
+		}
+		for _, ig := range f.opts.Ignore {
+			if ig == s.Sel.Name {
+				return in
+			}
+		}
 		if t, ok := tbl[s.Sel.Name]; ok {
 			if t == "u8" && f.side == "enc" && len(call.Args) == 1 {
 				if cn := constName(f.info, call.Args[0]); cn != "" {
@@ -444,6 +468,11 @@ func (f *fnCtx) call(call *ast.CallExpr, lits []*ast.FuncLit, in int) int {
 	// module function that touches a buffer: inline
 	if callee := calleeOf(f.info, call); callee != nil && f.pkgs[callee.Pkg()] {
 		fs := f.p.SrcOf(callee)
+		for _, o := range f.opts.Opaque {
+			if o == callee.Name() {
+				fs = nil
+			}
+		}
 		if fs != nil && f.hasBufOps(fs, map[*FuncSrc]bool{}, 0) && f.sameStream(call, fs) {
 			if f.depth >= f.maxDep {
 				undecided("codec: inlining deeper than %d at %s", f.maxDep, f.p.Pos(call.Pos()))
@@ -693,6 +722,12 @@ func (f *fnCtx) stmt(s ast.Stmt, in, brk, cont int) int {
 			}
 			call, isCall := last.(*ast.CallExpr)
 			passThrough := isCall && len(x.Results) == 1 // `return d.samplesV1(...)`: decided inside the callee
+			if isCall {
+				switch types.ExprString(call.Fun) {
+				case "fmt.Errorf", "errors.New", "errors.Join", "errors.Wrap", "errors.Wrapf":
+					passThrough = false
+				}
+			}
 			if isCall && !passThrough {
 				// `return nil, dec.Err()` is an error return; other calls (wrapping helpers) too
 				_ = call
@@ -909,7 +944,22 @@ func (f *fnCtx) stmt(s ast.Stmt, in, brk, cont int) int {
 		}
 		return done
 	case *ast.SelectStmt:
-		undecided("codec: select at %s", f.p.Pos(x.Pos()))
+		done := a.node()
+		for _, cl := range x.Body.List {
+			cc := cl.(*ast.CommClause)
+			start := a.node()
+			a.eps(in, start)
+			cur := start
+			if cc.Comm != nil {
+				cur = f.stmt(cc.Comm, cur, brk, cont)
+			}
+			if cur >= 0 {
+				if out := f.block(cc.Body, cur, done, cont); out >= 0 {
+					a.eps(out, done)
+				}
+			}
+		}
+		return done
 	}
 	return in
 }
@@ -1097,13 +1147,17 @@ type CodecResult struct {
 
 // CodecIncluded checks L(enc) ⊆ L(dec) for two module functions.  pkgs lists the packages whose
 // functions are inlined when they touch an encoding buffer.
-func (p *Prog) CodecIncluded(encRef, decRef string, pkgRels []string, maxDepth int) CodecResult {
+func (p *Prog) CodecIncluded(encRef, decRef string, pkgRels []string, maxDepth int, opts ...CodecOpts) CodecResult {
+	var o CodecOpts
+	if len(opts) > 0 {
+		o = opts[0]
+	}
 	pk := map[*types.Package]bool{}
 	for _, r := range pkgRels {
 		pk[p.Pkg(r).Types] = true
 	}
 	build := func(ref, side string) (*pNFA, *cAuto) {
-		c := &codecCtx{p: p, a: &cAuto{accept: map[int]bool{}}, side: side, pkgs: pk, maxDep: maxDepth}
+		c := &codecCtx{opts: o, p: p, a: &cAuto{accept: map[int]bool{}}, side: side, pkgs: pk, maxDep: maxDepth}
 		s, e := c.compileFunc(p.Src(ref), true)
 		return c.a.product(s, map[int]bool{e: true}), c.a
 	}
@@ -1192,8 +1246,8 @@ func (p *Prog) CodecIncluded(encRef, decRef string, pkgRels []string, maxDepth i
 }
 
 // Codec records the inclusion obligation for one encoder/decoder pair.
-func (c *Ctx) Codec(rule, encRef, decRef string, pkgRels []string) bool {
-	res := c.P.CodecIncluded(encRef, decRef, pkgRels, 4)
+func (c *Ctx) Codec(rule, encRef, decRef string, pkgRels []string, opts ...CodecOpts) bool {
+	res := c.P.CodecIncluded(encRef, decRef, pkgRels, 4, opts...)
 	what := "L(" + short(encRef) + ") ⊆ L(" + short(decRef) + ") over wire tokens"
 	c.FnsAnalysed[FuncName(c.P.Func(encRef))] = true
 	c.FnsAnalysed[FuncName(c.P.Func(decRef))] = true
